@@ -369,6 +369,16 @@ func (x *prioExec) checkTermination(what string) {
 	}
 	x.termSeen = true
 	x.res.Terminated = true
+	if x.sc.simple() {
+		// termination of a simple discipline implies that every Handle call has returned;
+		// looked at right at the closure, before anything else is allowed to run on
+		if en, rt := x.sys.entered.Load(), x.sys.returned.Load(); en != rt {
+			x.fail("C07", "handle-running", "%s while %d Handle call(s) have not returned", what, en-rt)
+			if x.stopIssued {
+				x.fail("C16", "handle-running-at-termination", "%s after a stop/cancel while %d Handle call(s) are still running", what, en-rt)
+			}
+		}
+	}
 	if x.stopIssued {
 		x.res.TermWay = "stop"
 		return
@@ -413,9 +423,6 @@ func (x *prioExec) checkTermination(what string) {
 	}
 	if x.sc.isV1() && !x.gracefulOn {
 		x.fail("C07", "early-termination", "%s of the v1 discipline although neither GracefulStop nor Stop was called", what)
-	}
-	if x.sc.simple() && x.sys.entered.Load() != x.sys.returned.Load() {
-		x.fail("C07", "handle-running", "%s while %d Handle calls have not returned", what, x.sys.entered.Load()-x.sys.returned.Load())
 	}
 }
 
@@ -1115,7 +1122,8 @@ func runPrioV(sc PrioScenario, ctl *bubbleCtl) *prioResult {
 	x.shares = sharesOf(div, prios, sc.H)
 	x.div = div
 	x.mon = newDivMonitor(x, div)
-	b := prioBuild{Ver: sc.Ver, Div: x.mon.divide, DivV1: x.mon.divideV1, H: sc.H, OutCap: sc.OutCap, FbCap: sc.FbCap, Abort: x.abort, Entered: total + 8*int(sc.H) + 4096}
+	exitDelay := []time.Duration{0, 10 * time.Nanosecond, 300 * time.Nanosecond}[sc.Seed%3]
+	b := prioBuild{Ver: sc.Ver, Div: x.mon.divide, DivV1: x.mon.divideV1, HandleExitDelay: exitDelay, H: sc.H, OutCap: sc.OutCap, FbCap: sc.FbCap, Abort: x.abort, Entered: total + 8*int(sc.H) + 4096}
 	for _, in := range x.chans {
 		b.Inputs = append(b.Inputs, in)
 	}
